@@ -19,7 +19,7 @@ Sampled(o) == ~(o.ime = "Enabled" /\ (o.iflag & o.ie) # 0)
 Delivered(rec, n) == rec.clk[1] = n /\ rec.clk[2] = n /\ rec.clk[3] = n
 
 NewHistory == IsEvent("init") /\ k' = Zero
-Passive == l <= Len(Recs) /\ Recs[l].ev \in {"bw", "press", "release"} /\ l' = l + 1 /\ UNCHANGED k
+Passive == l <= Len(Recs) /\ Recs[l].ev \in {"bw", "press", "release", "br", "bf", "tick"} /\ l' = l + 1 /\ UNCHANGED k
 RunningStep ==
   /\ IsEvent("step") /\ Recs[l].k \in {"instr", "block"}
   /\ LET rec == Recs[l]
